@@ -620,8 +620,12 @@ class GPT:
             tmplist.append(part.record())
         part_data = b''.join(tmplist)
 
+        # The CRC in the header covers the whole partition entry array, not
+        # just the entries that are in use.
+        part_data_crc = crc32(part_data + b'\x00' * (self.header.num_parts - len(self.parts)) * 128)
+
         if self.is_primary:
-            outlist = [self.header.record(crc32(part_data))]
+            outlist = [self.header.record(part_data_crc)]
             if self.apm_parts:
                 outlist.append(b'\x00' * 1024)
             for apm_part in self.apm_parts:
@@ -635,7 +639,7 @@ class GPT:
             outlist = [part_data]
             # Write out all of the "empty" partitions.
             outlist.append(b'\x00' * (self.header.num_parts - len(self.parts)) * 128)
-            outlist.append(self.header.record(crc32(part_data)))
+            outlist.append(self.header.record(part_data_crc))
 
         return b''.join(outlist)
 
